@@ -27,6 +27,13 @@ def tmp_root():
     return _tmp_root
 
 
+def point_at_repo(cargo_toml):
+    """Witness crates path-depend on /repo; when another tree is analysed (RRTK_REPO) the copied manifest follows it."""
+    if REPO != "/repo":
+        t = open(cargo_toml).read()
+        open(cargo_toml, "w").write(t.replace('path = "/repo"', 'path = "%s"' % REPO))
+
+
 def sysroot():
     return subprocess.check_output(["rustc", "+nightly", "--print", "sysroot"], text=True).strip()
 
